@@ -264,6 +264,19 @@ def fam_trans_history(seed, shard, nshards, n):
         acts = [rng.choice([6, 0, 0, 7, 4, 5, 1, 2, 3]) for _ in range(rng.randint(2, 8))]
         if k % 2 == 0:
             acts[:2] = [6, 0]
+        if k % 3 == 2:
+            # worlds no shipped layout has: telepods next to doors, boxes and keys, the agent on a telepod,
+            # the teleport last in the chain, pose-preserving actions repeated
+            h, w = s.grid.shape.height, s.grid.shape.width
+            col = rng.randint(0, 4)
+            for _ in range(rng.randint(1, 3)):
+                s.grid[rng.randrange(h), rng.randrange(w)] = dec_obj(f'T{col}')
+            for _ in range(rng.randint(0, 3)):
+                c2 = rng.randrange(5)
+                s.grid[rng.randrange(h), rng.randrange(w)] = dec_obj(rng.choice([f'D1{c2}', f'D2{c2}', f'K{c2}', 'XK1', 'XF']))
+            s.grid[s.agent.position] = dec_obj(f'T{col}')
+            atoms = rng.choice([[0, 1, 4, 5, 2, 6], [4, 5, 2, 6], [2, 6], [4, 6], [5, 6], [6, 4, 5, 2]])
+            acts = [rng.choice([6, 7, 6, 7, rng.randrange(8)]) for _ in range(rng.randint(2, 6))]
         for ai in acts:
             a = ACTIONS[ai]
             before = enc_state(s)
